@@ -521,6 +521,47 @@ func (v *VMValue) Clone() *VMValue {
 	// }
 }
 
+// CloneDeep 连同数组、字典的内容一起复制，得到的值与原值不共享任何可变部分(自引用的结构复制后仍然自引用)；
+// Clone 只复制外壳，数组和字典的内容仍与原值共用
+func (v *VMValue) CloneDeep() *VMValue {
+	return v.cloneDeep(map[any]*VMValue{})
+}
+
+func (v *VMValue) cloneDeep(done map[any]*VMValue) *VMValue {
+	if v == nil {
+		return nil
+	}
+	switch v.TypeId {
+	case VMTypeArray:
+		if c, ok := done[v.Value]; ok {
+			return c
+		}
+		ad, _ := v.ReadArray()
+		nd := &ArrayData{List: make([]*VMValue, len(ad.List))}
+		c := &VMValue{TypeId: VMTypeArray, Value: nd}
+		done[v.Value] = c
+		for i, x := range ad.List {
+			nd.List[i] = x.cloneDeep(done)
+		}
+		return c
+	case VMTypeDict:
+		if c, ok := done[v.Value]; ok {
+			return c
+		}
+		dd, _ := v.ReadDictData()
+		nd := &DictData{Dict: &ValueMap{}}
+		c := &VMValue{TypeId: VMTypeDict, Value: nd}
+		done[v.Value] = c
+		dd.Dict.Range(func(key string, value *VMValue) bool {
+			nd.Dict.Store(key, value.cloneDeep(done))
+			return true
+		})
+		return c
+	default:
+		return v.Clone()
+	}
+}
+
 func (v *VMValue) AsBool() bool {
 	switch v.TypeId {
 	case VMTypeInt:
